@@ -329,8 +329,8 @@ theorem opLock_cons (x : Rid) {db : DB} (ha : InvA db) (hq : InvQ db) (c : Cmd) 
     -- the value operation touches the key only; then UpdateLockedLock, maybe the long-table move, maybe the journal
     have hfin : ∀ (d : DB) (r1 : Rec), At x d h r1 (openN x db - openR x r) → r1.cmd = r.cmd → r1.ack = r.ack → r1.queued = r.queued →
         r1.timeouted = r.timeouted → r1.depth = r.depth + 1 →
-        InvQ (if ((d.updateHold h c).getR h).isAof = true then ((d.updateHold h c).pushLock h).1 else d.updateHold h c) ∧
-          openN x (if ((d.updateHold h c).getR h).isAof = true then ((d.updateHold h c).pushLock h).1 else d.updateHold h c) = openN x db - openR x r := by
+        InvQ (if ((d.updateHold h c).getR h).isAof = true then ((d.updateHold h c).pushJ ((d.updateHold h c).getR h).noAckFlag true).1 else d.updateHold h c) ∧
+          openN x (if ((d.updateHold h c).getR h).isAof = true then ((d.updateHold h c).pushJ ((d.updateHold h c).getR h).noAckFlag true).1 else d.updateHold h c) = openN x db - openR x r := by
       intro d r1 hd c1 c3 c4 c5 c2
       have hu : ∃ r2, At x (d.updateHold h c) h r2 (openN x db - openR x r) ∧ r2.cmd = c ∧ r2.ack = r.ack ∧ r2.queued = r.queued ∧
           r2.timeouted = r.timeouted ∧ r2.depth = r.depth + 1 := by
@@ -353,9 +353,8 @@ theorem opLock_cons (x : Rid) {db : DB} (ha : InvA db) (hq : InvQ db) (c : Cmd) 
         obtain ⟨s1, s2, s3, s4, s5, s6⟩ := s
         rw [openR_eq, s4, g4, hnq, (pending_false_iff _).mpr (by rw [s3, g3]; exact (pending_false_iff _).mp hnp)]; simp [b2i]
       split
-      · obtain ⟨r3, h3, s⟩ := h2.pushLock
-        obtain ⟨hq', hb⟩ := h3.finish (hq2 r3 s)
-        exact ⟨hq', by rw [hb, ho r3 s]; omega⟩
+      · obtain ⟨hq', hb⟩ := (h2.pushJ ((d.updateHold h c).getR h).noAckFlag true).finish (hq2 r2 (SameCore.refl _))
+        exact ⟨hq', by rw [hb, ho r2 (SameCore.refl _)]; omega⟩
       · obtain ⟨hq', hb⟩ := h2.finish (hq2 r2 (SameCore.refl _))
         exact ⟨hq', by rw [hb, ho r2 (SameCore.refl _)]; omega⟩
     have hor : openR x r = 0 := by rw [openR_eq, hnq, hnp]; simp [b2i]
